@@ -28,6 +28,10 @@ pub struct Case {
     /// only these fault indices (empty = all); used by replays of single faults
     pub only: Vec<usize>,
     pub pairs: bool,
+    /// instead of a batch build of `points`: a start state plus a history of library operations
+    /// (removals, insertions, flips, repairs); the resulting triangulation is the instance
+    #[serde(default)]
+    pub history: Option<(crate::gen::history::Start, Vec<crate::gen::history::Op>)>,
 }
 
 #[derive(Debug, Clone, Serialize, Deserialize, PartialEq)]
@@ -483,24 +487,43 @@ fn run<const D: usize>(case: &Case, log: &mut CaseLog) {
         1 => TopologyGuarantee::PLManifold,
         _ => TopologyGuarantee::PLManifoldStrict,
     };
-    let gref = crate::gen::world::guarantee_of(g);
-    let verts: Vec<_> = case.points.pts.iter().enumerate().map(|(i, p)| mk_vertex::<i32, D>(p, uuid_for(case.salt, i), Some(i as i64))).collect();
-    let Ok(dt) = DelaunayTriangulation::<K, i32, (), D>::with_topology_guarantee(&K::new(), &verts, g) else {
-        log.class("construction_err");
-        return;
+    let (base, g): (TdsD<D>, TopologyGuarantee) = match &case.history {
+        None => {
+            let verts: Vec<_> = case.points.pts.iter().enumerate().map(|(i, p)| mk_vertex::<i32, D>(p, uuid_for(case.salt, i), Some(i as i64))).collect();
+            let Ok(dt) = DelaunayTriangulation::<K, i32, (), D>::with_topology_guarantee(&K::new(), &verts, g) else {
+                log.class("construction_err");
+                return;
+            };
+            (dt.tds().clone(), g)
+        }
+        Some((start, ops)) => {
+            log.class("instance:history");
+            let Some(mut w) = crate::gen::history::start_world::<K, D>(start, case.salt) else {
+                log.class("construction_err");
+                return;
+            };
+            for op in ops {
+                let before = w.snap();
+                if guarded(|| w.apply(&before, op)).is_err() {
+                    log.class("history_panicked(not judged)");
+                    return;
+                }
+            }
+            (w.dt.tds().clone(), w.dt.topology_guarantee())
+        }
     };
-    let base: TdsD<D> = dt.tds().clone();
+    let gref = crate::gen::world::guarantee_of(g);
     let s0 = Snap::of(&base);
     if s0.cells.len() > 60 || s0.cells.is_empty() {
         return;
     }
-    // (i) no false alarm on the uncorrupted, library-produced triangulation (only judged when the reference agrees it is valid)
+    // (i) the library-produced triangulation itself: validators and reference must agree on it
     let (rep0, a, b, c, comp0) = reference(&s0, gref);
-    if !(a && b && c && comp0) || rep0.orient_in_band > 0 {
-        log.class("instance_not_valid_by_reference(skipped)");
+    if !judge::<D>(&base, g, gref, "uncorrupted triangulation", log) {
         return;
     }
-    if !judge::<D>(&base, g, gref, "uncorrupted triangulation", log) {
+    if !(a && b && c && comp0) || rep0.orient_in_band > 0 {
+        log.class("instance_not_valid_by_reference(no faults injected)");
         return;
     }
     let faults = enumerate::<D>(&s0, 12);
@@ -572,7 +595,21 @@ pub fn strategy(dim: usize) -> BoxedStrategy<Case> {
         _ => 7,
     };
     (any::<u64>(), 0u8..3, point_set_from(dim, dim + 1, nmax, EXACT_FAMILIES), prop_oneof![3 => Just(false), 1 => Just(true)])
-        .prop_map(move |(salt, guarantee, points, pairs)| Case { dim, salt, guarantee, points, only: vec![], pairs })
+        .prop_map(move |(salt, guarantee, points, pairs)| Case { dim, salt, guarantee, points, only: vec![], pairs, history: None })
+        .boxed()
+}
+
+pub const HISTORY_MIX: crate::gen::history::OpMix = crate::gen::history::OpMix { insert: 3, remove: 8, flips: 2, repair: 1, setters: 0, clone: 0, adversarial_uuid: false };
+
+pub fn history_strategy(dim: usize) -> BoxedStrategy<Case> {
+    let nmax = match dim {
+        2 => 12,
+        3 => 10,
+        4 => 9,
+        _ => 8,
+    };
+    (any::<u64>(), crate::gen::history::start_strategy(dim, nmax, 0), proptest::collection::vec(crate::gen::history::op_strategy(dim, HISTORY_MIX), 1..=8))
+        .prop_map(move |(salt, start, ops)| Case { dim, salt, guarantee: start.guarantee, points: PointSet { dim, family: "history".into(), pts: vec![] }, only: vec![], pairs: false, history: Some((start, ops)) })
         .boxed()
 }
 
@@ -590,6 +627,8 @@ pub fn run_shard(ctx: &mut Ctx) {
         };
         let n = ctx.share(total);
         ctx.run_cases(&format!("fault_enumeration_d{dim}"), n, strategy(dim), &|c, l| exec(c, l));
+        let nh = ctx.share(total / 2);
+        ctx.run_cases(&format!("fault_enumeration_after_history_d{dim}"), nh, history_strategy(dim), &|c, l| exec(c, l));
     }
 }
 
